@@ -82,21 +82,76 @@ def lemma_sites(ctx):
         ctx.check_w(name, ok, wit, "call-site")
 
 
+def _is_tag_class(repo, ci):
+    return any(c.name == "Tag" for c in ci.mro(repo))
+
+
+def _self_attr_targets(fn, attr):
+    out = []
+    for n in ast.walk(fn):
+        tg = n.targets if isinstance(n, ast.Assign) else ([n.target] if isinstance(n, (ast.AugAssign, ast.AnnAssign)) else [])
+        for t in tg:
+            if isinstance(t, ast.Attribute) and t.attr == attr and isinstance(t.value, ast.Name) and t.value.id == "self":
+                out.append(n)
+    return out
+
+
+def lemma_direct_assignments(ctx):
+    """A Tag subclass that assigns `self.value` directly (outside __init__ and outside the setters) must stamp the tag with the engine
+    clock of that tick in the same method: `self.tick_time = <the clock>`; otherwise the changed value is reported with the time of an
+    earlier change."""
+    ex, st = ctx.ex, ctx.st
+    repo = ex.repo
+    for mod in ("openpectus.lang.exec.tags", "openpectus.lang.exec.tags_impl", "openpectus.engine.archiver", "openpectus.engine.hardware_recovery"):
+        mi = repo.module(mod)
+        for cname, ci in mi.classes.items():
+            if not _is_tag_class(repo, ci):
+                continue
+            for fi in ci.methods.values():
+                if fi.node.name == "__init__" or not _self_attr_targets(fi.node, "value"):
+                    continue
+                short = fi.qualname.split(":")[1]
+                name = f"directly-assigned-value-is-stamped-with-the-engine-clock[{short}]"
+                fr = Frame(fi, fi.module, None)
+                clock = SV(mk_real(st.fresh("engine_clock", z3.RealSort())), Ty("float"))
+                params = [a.arg for a in fi.node.args.args + fi.node.args.kwonlyargs]
+                fr.locals["self"] = ctx.fresh("self_obj", None)
+                if "tick_time" in params:
+                    fr.locals["tick_time"] = clock
+                stamps = _self_attr_targets(fi.node, "tick_time")
+                ok = z3.BoolVal(False)
+                for a in stamps:
+                    try:
+                        v = ex.ev(a.value, fr)
+                        if v.term is not None:
+                            ok = z3.Or(ok, v.term == clock.term)
+                    except Unsupported:
+                        pass
+                wit = (lambda site: (lambda m: {"site": site}))({"function": fi.qualname, "line": fi.node.lineno,
+                                                                 "assignments": [ast.unparse(n)[:80] for n in _self_attr_targets(fi.node, "value")]})
+                ctx.check_w(name, ok, wit, "call-site")
+
+
 CONTRACTS = []
 TARGETS = []
-LEMMAS = [("tag-time-call-sites", lemma_sites)]
+LEMMAS = [("tag-time-call-sites", lemma_sites), ("tag-value-direct-assignments", lemma_direct_assignments)]
 LEVEL = "other"
 TRUSTED = ["Tag.set_value stores the given time as the tag's tick_time when the value changes (tags.py, read not proved)",
            "the engine/interpreter `_tick_time` is the engine clock of the current tick; event handlers receive it as `tick_time`",
            "engine clock readings are non-decreasing (monotonicity and bounds of reported times follow from that)"]
-CLAUSES = {"every reported value carries the engine clock time of its tick": "one call-site obligation per setter call in the seven files (discovered on every run)",
+CLAUSES = {"every reported value carries the engine clock time of its tick": "one call-site obligation per setter call in the seven files, and one obligation per Tag method that assigns self.value directly (both discovered on every run)",
            "times per tag never decrease / lie between engine start and the current tick": "follows from the call-site contract + monotone clock (assumed), not mechanised"}
 EXPLANATION = "Call-site precondition of the Tag setters generated for every call site; time argument evaluated symbolically and compared with the clock term."
-REPLAY_WITHOUT_WITNESS = False
+REPLAY_WITHOUT_WITNESS = False   # witnesses are the site descriptions
 
 
 def replay(obligation, witness):
     import contracts.c16_native as n
+    if "directly-assigned-value" in obligation:
+        r = n.scenario_timer_tags_keep_a_stale_time()
+        which = "Block Time" if "BlockTimeTag" in obligation else "Scope Time"
+        hit = [x for x in r.get("stale", []) if x["tag"] == which]
+        return {"confirmed": bool(hit) or (r["violated"] and "on_tick" not in obligation), **r}
     if "PInterpreter" in obligation:
         r = n.scenario_block_and_simulate()
         return {"confirmed": r["violated"], **r}
